@@ -1160,6 +1160,63 @@ def r05_16(chk, tier, units=('bson',)):
                         fn['n'] if fn.get('fk') != 'CXXConstructor' else fn['q'].split('::')[-1] + ' constructor', A.text(x)[:30], prm['n'], why), None, fn['q'])
     chk.require(n >= 1, 'R05.16: no indexed read of a view parameter found')
 
+GROW_KINDS = {'push_back': 'append', 'emplace_back': 'append', 'clear': 'clear', 'insert': 'insert', 'resize': 'resize', 'erase': 'erase', 'pop_back': 'pop', 'assign': 'assign', 'reserve': None}
+
+def r05_17(chk, tier, units=('csv',)):
+    """An element access that is bounded by the size of a *different* container relies on the two being kept in step."""
+    chk.rule('R05.17', 'borrowed bounds: where a member container is indexed under a test against the size of another member container '
+                       '(`if (i < names_.size()) events_[i]...`), every member function of the class that changes the size of one changes the '
+                       'size of the other by the same kind of operation, in the same order (append with append, clear with clear); an '
+                       'append paired with a resize, or a change of only one of them, lets the index run past the shorter container', floor=1)
+    n = 0
+    for unit in units:
+        facts = F.load([unit], tier)
+        if unit not in chk.units: chk.units.append(unit)
+        classes = {}
+        for f in facts.functions:
+            if f.get('body') is None or f.get('dep') or not f.get('cls') or not f['file'].startswith('include/jsoncons_ext/' + unit): continue
+            classes.setdefault(f['cls'], []).append(f)
+        def member(e):
+            e2 = A.strip(e, casts=True)
+            return e2.get('n') if e2 is not None and e2.get('k') == 'MemberExpr' and (A.strip(e2.get('base')) or {}).get('k') == 'CXXThisExpr' else None
+        for cls, fns in sorted(classes.items()):
+            pairs = set()
+            for fn in U.one_per_inst(fns):
+                subs = [x for x in A.walk_no_lambda(fn['body']) if x.get('k') == 'CXXOperatorCallExpr' and x.get('oop') == '[]' and x.get('args') and member(x['args'][0])]
+                if not subs: continue
+                g = C.CFG(fn['body'])
+                for x in subs:
+                    b = member(x['args'][0]); idx = A.text(A.strip(x['args'][1], casts=True))
+                    nd = g.node_of(x)
+                    for a, lab, e in (g.guards(nd) if nd is not None else []):
+                        cmp_ = G.comparison(a)
+                        if not cmp_ or not isinstance(lab, bool): continue
+                        op = cmp_[0] if lab else G.NEG[cmp_[0]]
+                        l, r = cmp_[1], cmp_[2]
+                        if op in ('>', '>='): l, r, op = r, l, G.FLIP[op]
+                        if op != '<' or A.text(A.strip(l, casts=True)) != idx: continue
+                        rc = A.strip(r, casts=True)
+                        if rc is not None and A.is_call(rc) and A.callee_name(rc) == 'size' and member(rc.get('obj')) and member(rc.get('obj')) != b:
+                            pairs.add((member(rc.get('obj')), b))
+            for a_, b_ in sorted(pairs):
+                for fn in U.one_per_inst(fns):
+                    if fn.get('fk') in ('CXXConstructor', 'CXXDestructor'): continue
+                    ops = {a_: [], b_: []}
+                    for y in A.walk_no_lambda(fn['body']):
+                        if y.get('k') == 'CXXMemberCallExpr' and member(y.get('obj')) in ops and GROW_KINDS.get(A.callee_name(y)):
+                            ops[member(y.get('obj'))].append((GROW_KINDS[A.callee_name(y)], y.get('l')))
+                        if y.get('k') == 'CXXOperatorCallExpr' and y.get('oop') == '=' and y.get('args') and member(y['args'][0]) in ops:
+                            ops[member(y['args'][0])].append(('assign', y.get('l')))
+                    if not ops[a_] and not ops[b_]: continue
+                    n += 1
+                    chk.analysed(fn)
+                    site = U.site(fn, '%s ~ %s' % (a_, b_))
+                    if [k for k, _ in ops[a_]] == [k for k, _ in ops[b_]]: chk.ok('R05.17', site, {'class': A.strip_targs(cls).split('::')[-1], 'operations': [k for k, _ in ops[a_]]})
+                    else:
+                        chk.fail('R05.17', site, fn['file'], (ops[a_] or ops[b_])[0][1], '%s::%s changes %s by %s and %s by %s, while %s[i] is accessed under `i < %s.size()` elsewhere in the class: the two containers '
+                                 'can end up with different lengths and the access runs past the shorter one' % (A.strip_targs(cls).split('::')[-1], fn['n'], a_, [k for k, _ in ops[a_]] or 'nothing', b_, [k for k, _ in ops[b_]] or 'nothing', b_, a_), None, fn['q'])
+    chk.require(n >= 1, 'R05.17: no container indexed under the size of another one found')
+
 def run(chk, tier, only_rule=None):
     chk.explanation = EXPLANATION
     chk.not_decided = NOT_DECIDED
@@ -1182,6 +1239,7 @@ def run(chk, tier, only_rule=None):
     r05_14(chk, tier)
     r05_15(chk, tier)
     r05_16(chk, tier)
+    r05_17(chk, tier)
     from . import c15
     for u_ in ('core', 'csv', 'jsonpath', 'jmespath', 'toon'):
         c15.r15_8(chk, F.load([u_], tier), rid='R05.13', floor=1)
